@@ -263,12 +263,12 @@ gen_stress (Rng& r, uint64_t idx, SCase<T>& k)
 // ------------------------------------------------------------------ oracle
 enum
 {
-    S_EMPTY, S_FLAT, S_INSIDE, S_ON_FACE_PLANE, S_DIR_ZERO, S_DIR_NEGZERO, S_DIR_DENORMAL, S_DIR_TINY, S_DIR_HUGE, S_DIR_REGULAR, S_CTOR, S_PARTIAL,
+    S_EMPTY, S_FLAT, S_INSIDE, S_ON_FACE_PLANE, S_DIR_ZERO, S_DIR_NEGZERO, S_DIR_DENORMAL, S_DIR_TINY, S_DIR_HUGE, S_DIR_REGULAR, S_CTOR, S_CTOR_DENORMAL, S_PARTIAL,
     S_LINE_HIT, S_LINE_MISS, S_RAY_HIT, S_RAY_MISS, S_BEHIND, S_BINDING_TINY_AXIS, S_OVERFLOWING_QUOTIENT,
     S_SKIP_TIE, S_SKIP_UNDERFLOW, S_SKIP_THRESHOLD, S_SKIP_DOMAIN, S_N
 };
 const char* const S_NAME[S_N] = {"empty_box", "flat_box", "origin_inside", "origin_on_face_plane", "dir_zero", "dir_negzero", "dir_denormal", "dir_tiny",
-                                 "dir_huge", "dir_regular", "dir_from_Line3_ctor", "partial_overflow", "line_hit", "line_miss", "ray_hit", "ray_miss",
+                                 "dir_huge", "dir_regular", "dir_from_Line3_ctor", "denormal_dir_from_Line3_ctor", "partial_overflow", "line_hit", "line_miss", "ray_hit", "ray_miss",
                                  "box_behind_origin", "hit_bound_by_tiny_axis", "overflowing_quotient", "skipped_near_tie", "skipped_underflow",
                                  "skipped_near_overflow_threshold", "skipped_zero_or_nonfinite_dir"};
 
@@ -494,7 +494,7 @@ sub_stress (Ctx& c, uint64_t b, uint64_t e)
         n[S_EMPTY] += v.empty; n[S_FLAT] += v.flat; n[S_INSIDE] += v.inside; n[S_ON_FACE_PLANE] += v.on_face;
         n[S_DIR_ZERO] += v.zero; n[S_DIR_NEGZERO] += v.negzero; n[S_DIR_DENORMAL] += v.denormal; n[S_DIR_TINY] += v.tiny; n[S_DIR_HUGE] += v.huge;
         n[S_DIR_REGULAR] += !(v.zero | v.negzero | v.denormal | v.tiny | v.huge);
-        n[S_CTOR] += k.via_ctor; n[S_PARTIAL] += v.partial; n[S_OVERFLOWING_QUOTIENT] += v.overflowing;
+        n[S_CTOR] += k.via_ctor; n[S_CTOR_DENORMAL] += (k.via_ctor && v.denormal); n[S_PARTIAL] += v.partial; n[S_OVERFLOWING_QUOTIENT] += v.overflowing;
         if ((v.line != 0 || v.ray != 0) && (idx & 3) == 0)
         {
             uint64_t h = 0;
@@ -512,16 +512,16 @@ sub_stress (Ctx& c, uint64_t b, uint64_t e)
         if (wr[i] >= 0) c.worst (wn[i], wr[i], wi[i], [&] { return scase_json (wk[i]); });
 }
 
-#define C14_REQ_S {"dir_zero", "dir_negzero", "dir_denormal", "dir_tiny", "dir_huge", "dir_regular", "dir_from_Line3_ctor", "overflowing_quotient", "partial_overflow", \
+#define C14_REQ_S {"dir_zero", "dir_negzero", "dir_denormal", "dir_tiny", "dir_huge", "dir_regular", "dir_from_Line3_ctor", "denormal_dir_from_Line3_ctor", "overflowing_quotient", "partial_overflow", \
                    "hit_bound_by_tiny_axis", "origin_inside", "origin_on_face_plane", "flat_box", "empty_box", "box_behind_origin", "ray_hit", "ray_miss", "line_hit", "line_miss"}
 
-MON_SUB (sub_stress<float>, "stress_float", 12000000ull, 400000000ull)
+MON_SUB (sub_stress<float>, "stress_float", 20000000ull, 400000000ull)
     .req (C14_REQ_S).chunked (16384)
     .over ("Box3f with moderate real coordinates (integer / real / face at 0 / tiny box; flat, empty), unit Line3f directions with components +0, -0, denormal, FLT_MIN, 1e-30, 2^-k, "
            "partly produced by Line3's constructor, and un-normalised directions scaled by 2^20..2^125; 10 generators (idx%10); long double oracle; verdict only if every deciding "
            "comparison has relative margin > 1e-4 (near ties / underflowing quotients / quotients at the overflow threshold skipped and counted); distinct = hash of the 12 input "
            "values (every 4th judged case recorded, capped: a lower bound)");
-MON_SUB (sub_stress<double>, "stress_double", 12000000ull, 400000000ull)
+MON_SUB (sub_stress<double>, "stress_double", 20000000ull, 400000000ull)
     .req (C14_REQ_S).chunked (16384)
     .over ("Box3d/Line3d: same generators as stress_float with double limits (denormals below 2.2e-308, scale up to 2^1021); __float128 oracle");
 } // namespace
